@@ -91,8 +91,16 @@ def run_case(case):
             res["nontrivial"] = True
             return res
         # ---- duration
+        rerun_plain = bool(sub["sim"]["absence"]) and case["i"] % 3 == 0
         try:
             B.run(sm.project, sub)
+            if rerun_plain:
+                # history of the sub-project: simulated with absence steps, then simulated again without
+                # passing an absence list (library defaults), then saved
+                with warnings.catch_warnings():
+                    warnings.simplefilter("ignore")
+                    sm.project.simulate(task_priority_rule=ns.TaskPriorityRuleMode(sub["sim"]["rule"]), max_time=sub["sim"]["max_time"])
+                res.count("C20.sub_rerun_without_absence")
         except Exception as e:
             res["aborted"] = exc_info(e)
             return res
@@ -100,7 +108,7 @@ def run_case(case):
             res.count("C20.sub_project_failed")
             return res
         T = sm.project.time
-        absn = sorted(set(a for a in sub["sim"]["absence"] if a < T))
+        absn = [] if rerun_plain else sorted(set(a for a in sub["sim"]["absence"] if a < T))
         sm.project.write_simple_json(path)
         rm = case["remove_absence"]
         exp_duration = T - len(absn) if rm else T
@@ -108,6 +116,13 @@ def run_case(case):
         pm = B.build(parent, task_overrides={case["pos"]: (ns.BaseSubProjectTask, {})})
         pm.project.unit_timedelta = datetime.timedelta(seconds=case["parent_unit"])
         st = pm.tasks[case["pos"]]
+        if case["i"] % 2 == 1:
+            # another task was configured from the same file before, with the other setting
+            pre = ns.BaseSubProjectTask("pre")
+            with warnings.catch_warnings():
+                warnings.simplefilter("ignore")
+                pre.set_all_attributes_from_json(path, remove_absence_time_list=not rm)
+            res.count("C20.same_file_configured_twice")
         with warnings.catch_warnings(record=True) as wlist:
             warnings.simplefilter("always")
             st.set_all_attributes_from_json(path, remove_absence_time_list=rm)
